@@ -18,6 +18,7 @@ from __future__ import annotations
 
 import json
 import re
+import time
 import warnings
 from typing import Any, Optional
 
@@ -198,6 +199,28 @@ end J2O.Gen.C05
     return tabs
 
 
+class Batch:
+    """All driver requests of a run go through ONE `lean --run` invocation (start-up and the project lock
+    are paid once); each request carries the function that judges its answer."""
+
+    def __init__(self):
+        self.lines: list[str] = []
+        self.judges: list = []
+
+    def add(self, line: str, judge) -> None:
+        self.lines.append(line)
+        self.judges.append(judge)
+
+    def run(self) -> list:
+        bad = []
+        ans = common.run_driver("C05", self.lines) if self.lines else []
+        for a, j in zip(ans, self.judges):
+            r = j(a)
+            if r:
+                bad.append(r)
+        return bad
+
+
 # ----------------------------------------------------------------------------- H: helper functions
 
 
@@ -220,7 +243,7 @@ def _mk_graph(rng: common.Rng, n_in: int, n_nodes: int, in_names: list[str]):
     return ins, nodes, outs
 
 
-def corr_prune(chk: Check, rng: common.Rng, n: int) -> list:
+def corr_prune(chk: Check, rng: common.Rng, n: int, batch: Batch) -> None:
     ir = _ir()
     import jax2onnx.converter.ir_optimizations as opt
     lines, cases = [], []
@@ -246,17 +269,18 @@ def corr_prune(chk: Check, rng: common.Rng, n: int) -> list:
         lines.append(json.dumps({"op": "prune", "ins": [{"name": name_json(nm), "used": u}
                                                         for nm, u in zip(uniq, used)]}))
         cases.append({"names": uniq, "used": used, "kept": kept, "order_ok": order_ok})
-    ans = common.run_driver("C05", lines)
-    bad = []
-    for c, a in zip(cases, ans):
+    def judge(c, a):
         chk.count({"op": "prune", **c}, nontrivial=not all(c["used"]))
         if json.loads(a) != c["kept"] or not c["order_ok"]:
-            bad.append({"op": "prune", "case": c, "model": a})
+            return ({"op": "prune", "case": c, "model": a})
+        return None
+
+    for ln, c in zip(lines, cases):
+        batch.add(ln, (lambda a, c=c: judge(c, a)))
     chk.add("traces_validated_against_impl", len(lines))
-    return bad
 
 
-def corr_resolve(chk: Check, rng: common.Rng, n: int) -> list:
+def corr_resolve(chk: Check, rng: common.Rng, n: int, batch: Batch) -> None:
     ir = _ir()
     import jax2onnx.user_interface as ui
     lines, cases = [], []
@@ -274,14 +298,15 @@ def corr_resolve(chk: Check, rng: common.Rng, n: int) -> list:
             real = {"err": "positional inputs were pruned"} if "pruned" in str(e) else {"err": str(e)}
         lines.append(json.dumps({"op": "resolve", "ins": [name_json(x) for x in names], "n": npos}))
         cases.append({"names": names, "n": npos, "real": real})
-    ans = common.run_driver("C05", lines)
-    bad = []
-    for c, a in zip(cases, ans):
+    def judge(c, a):
         chk.count({"op": "resolve", **c}, nontrivial=c["n"] > 0)
         if json.loads(a) != c["real"]:
-            bad.append({"op": "resolve", "case": c, "model": a})
+            return ({"op": "resolve", "case": c, "model": a})
+        return None
+
+    for ln, c in zip(lines, cases):
+        batch.add(ln, (lambda a, c=c: judge(c, a)))
     chk.add("traces_validated_against_impl", len(lines))
-    return bad
 
 
 def _err_class(msg: str) -> str:
@@ -298,7 +323,7 @@ def _err_class(msg: str) -> str:
     return msg
 
 
-def corr_rename(chk: Check, rng: common.Rng, n: int) -> list:
+def corr_rename(chk: Check, rng: common.Rng, n: int, batch: Batch) -> None:
     """The real _apply_custom_io_names_on_ir on generated models against Lean `rename` (pairs are built
     the way the real function builds them: resolved positional inputs, then outputs)."""
     ir = _ir()
@@ -340,21 +365,22 @@ def corr_rename(chk: Check, rng: common.Rng, n: int) -> list:
                                  "pairs": [[i, t] for i, t in pairs]}))
         cases.append({"inputs": in_names, "outputs": [v.name for v in gout] if "ok" not in real else None,
                       "input_names": in_req, "output_names": out_req, "real": real})
-    ans = common.run_driver("C05", lines)
-    bad = []
-    for c, a in zip(cases, ans):
+    def judge(c, a):
         chk.count({"op": "rename", **c}, nontrivial=bool(c["input_names"] or c["output_names"]))
         if json.loads(a) != c["real"]:
-            bad.append({"op": "rename", "case": c, "model": a})
+            return ({"op": "rename", "case": c, "model": a})
         elif "ok" in c["real"] and (c["input_names"] or c["output_names"]):
             # the theorem's conclusion observed on the real result: all top-graph names distinct
             if len(set(c["real"]["ok"])) != len(c["real"]["ok"]):
-                bad.append({"op": "rename", "case": c, "why": "real result has colliding names"})
+                return ({"op": "rename", "case": c, "why": "real result has colliding names"})
+        return None
+
+    for ln, c in zip(lines, cases):
+        batch.add(ln, (lambda a, c=c: judge(c, a)))
     chk.add("traces_validated_against_impl", len(lines))
-    return bad
 
 
-def corr_materialize(chk: Check, rng: common.Rng, n: int) -> list:
+def corr_materialize(chk: Check, rng: common.Rng, n: int, batch: Batch) -> None:
     ir = _ir()
     import irtools
     import jax2onnx.user_interface as ui
@@ -384,14 +410,15 @@ def corr_materialize(chk: Check, rng: common.Rng, n: int) -> list:
         lines.append(json.dumps({"op": "materialize", "inputs": in_names, "inits": ["w"],
                                  "refs": refs, "params": params}))
         cases.append({"inputs": in_names, "params": params, "refs": refs, "real": real})
-    ans = common.run_driver("C05", lines)
-    bad = []
-    for c, a in zip(cases, ans):
+    def judge(c, a):
         chk.count({"op": "materialize", **c}, nontrivial=len(c["real"]) > len(c["inputs"]))
         if json.loads(a) != c["real"]:
-            bad.append({"op": "materialize", "case": c, "model": a})
+            return ({"op": "materialize", "case": c, "model": a})
+        return None
+
+    for ln, c in zip(lines, cases):
+        batch.add(ln, (lambda a, c=c: judge(c, a)))
     chk.add("traces_validated_against_impl", len(lines))
-    return bad
 
 
 # ----------------------------------------------------------------------------- H: programs x configurations
@@ -741,7 +768,7 @@ def directed_cases() -> list:
     ]
 
 
-def corr_programs(chk: Check, rng: common.Rng, n: int) -> dict:
+def corr_programs(chk: Check, rng: common.Rng, n: int, batch: Batch) -> dict:
     import jax
     from jax2onnx import to_onnx
     ir = _ir()
@@ -854,26 +881,30 @@ def corr_programs(chk: Check, rng: common.Rng, n: int) -> dict:
                                 "real_outputs": [_vi(v) for v in model.graph.output]}):
                 unlisted += 1
     # prediction of the inputs by the Lean model vs the real graph inputs (custom names substituted)
-    disagreements = []
-    if lines:
-        ans = common.run_driver("C05", lines)
-        for (case, cfg, real_in), a in zip(pending, ans):
-            pred = json.loads(a)
-            if isinstance(pred, dict):
-                raise RuntimeError(f"driver: {pred}")
-            stats["input_prediction_checked"] += 1
-            real = [[g["name"], g["elem"], [str(d) for d in g["dims"]]] for g in real_in]
-            if cfg.get("input_names") and len(pred) == len(cfg["input_names"]):
-                pred = [[nm, p[1], p[2]] for nm, p in zip(cfg["input_names"], pred)]
-            elif cfg.get("output_names") and len(pred) == len(real):
-                # an output that IS an input carries the requested output name on the input as well
-                # (reported separately as `aliased_output_renames_input`)
-                pred = [[r[0], p[1], p[2]] if r[0] in cfg["output_names"] else p for p, r in zip(pred, real)]
-            if pred != real:
-                disagreements.append({"program": case, "model": pred, "real": real})
+    disagreements: list = []
+
+    def judge(a, case, cfg, real_in):
+        pred = json.loads(a)
+        if isinstance(pred, dict):
+            raise RuntimeError(f"driver: {pred}")
+        stats["input_prediction_checked"] += 1
+        real = [[g["name"], g["elem"], [str(d) for d in g["dims"]]] for g in real_in]
+        if cfg.get("input_names") and len(pred) == len(cfg["input_names"]):
+            pred = [[nm, p[1], p[2]] for nm, p in zip(cfg["input_names"], pred)]
+        elif cfg.get("output_names") and len(pred) == len(real):
+            # an output that IS an input carries the requested output name on the input as well
+            # (reported separately as `aliased_output_renames_input`)
+            pred = [[r[0], p[1], p[2]] if r[0] in cfg["output_names"] else p for p, r in zip(pred, real)]
+        if pred != real:
+            disagreements.append({"program": case, "model": pred, "real": real})
+            stats["prediction_disagreements"] += 1
+        return None
+
+    for ln, (case, cfg, real_in) in zip(lines, pending):
+        batch.add(ln, (lambda a, case=case, cfg=cfg, real_in=real_in: judge(a, case, cfg, real_in)))
     chk.add("traces_validated_against_impl", len(lines))
     stats["patterns"] = seen_patterns
-    stats["prediction_disagreements"] = len(disagreements)
+    stats["prediction_disagreements"] = 0
     chk.info("programs", stats)
     return {"unlisted": unlisted, "disagreements": disagreements}
 
@@ -881,19 +912,23 @@ def corr_programs(chk: Check, rng: common.Rng, n: int) -> dict:
 # ----------------------------------------------------------------------------- the check
 
 
-def table_drift(tabs: dict) -> dict:
+def table_drift(tabs: dict, batch: Batch, drift: dict) -> None:
     """Rows of the regenerated tables that differ from the reference (through the Lean driver)."""
-    pol = common.run_driver("C05", [json.dumps({"op": "policy", "rows": [[s, f] for (s, f, _) in tabs["policy"]]})])
-    ref = json.loads(pol[0])
-    d_pol = [{"src": s, "flag": f, "code": o, "reference": r} for (s, f, o), r in zip(tabs["policy"], ref) if o != r]
-    rec = common.run_driver("C05", [json.dumps({"op": "reconcile", "rows": [[j, c, f] for (j, c, f, *_r) in tabs["out"]]})])
-    ref = json.loads(rec[0])
-    d_out = [{"jax": j, "cur": c, "flag": f, "declared": d, "cast": k, "reference": r}
-             for (j, c, f, d, k, _dr), r in zip(tabs["out"], ref) if [d, k] != r]
-    kp = common.run_driver("C05", [json.dumps({"op": "keep", "names": [name_json(n) for n, _ in tabs["keep"]]})])
-    ref = json.loads(kp[0])
-    d_keep = [{"name": n, "kept": k, "reference": r} for (n, k), r in zip(tabs["keep"], ref) if k != r]
-    return {"policy": d_pol, "output": d_out, "keep": d_keep}
+    def j_pol(a):
+        drift["policy"] = [{"src": s_, "flag": f, "code": o, "reference": r}
+                           for (s_, f, o), r in zip(tabs["policy"], json.loads(a)) if o != r]
+
+    def j_out(a):
+        drift["output"] = [{"jax": j, "cur": c, "flag": f, "declared": d, "cast": k, "reference": r}
+                           for (j, c, f, d, k, _dr), r in zip(tabs["out"], json.loads(a)) if [d, k] != r]
+
+    def j_keep(a):
+        drift["keep"] = [{"name": n, "kept": k, "reference": r}
+                         for (n, k), r in zip(tabs["keep"], json.loads(a)) if k != r]
+
+    batch.add(json.dumps({"op": "policy", "rows": [[s_, f] for (s_, f, _) in tabs["policy"]]}), j_pol)
+    batch.add(json.dumps({"op": "reconcile", "rows": [[j, c, f] for (j, c, f, *_r) in tabs["out"]]}), j_out)
+    batch.add(json.dumps({"op": "keep", "names": [name_json(n) for n, _ in tabs["keep"]]}), j_keep)
 
 
 def run(chk: Check) -> None:
@@ -906,17 +941,23 @@ def run(chk: Check) -> None:
     for name in ("policy", "out", "keep"):
         for row in tabs[name]:
             chk.count({"table": name, "row": list(row)}, nontrivial=True, sample_every=97)
+    t1 = time.time()
     proved = chk.prove(MODS, checker=thorough)
-    drift = table_drift(tabs)
-    chk.info("table_rows_outside_reference", {k: v[:20] for k, v in drift.items()})
-
+    chk.log(f"tables {round(t1 - chk.t0, 1)} s, Lean build+audit {round(time.time() - t1, 1)} s")
+    batch = Batch()
+    drift: dict = {}
+    table_drift(tabs, batch, drift)
     n = 400 if thorough else 120
-    bad = []
-    bad += corr_prune(chk, rng, n)
-    bad += corr_resolve(chk, rng, n)
-    bad += corr_rename(chk, rng, n)
-    bad += corr_materialize(chk, rng, n)
-    res = corr_programs(chk, rng, 700 if thorough else 110)
+    corr_prune(chk, rng, n, batch)
+    corr_resolve(chk, rng, n, batch)
+    corr_rename(chk, rng, n, batch)
+    corr_materialize(chk, rng, n, batch)
+    chk.log(f"real helper functions driven at {round(time.time() - chk.t0, 1)} s")
+    res = corr_programs(chk, rng, 700 if thorough else 110, batch)
+    chk.log(f"programs exported at {round(time.time() - chk.t0, 1)} s")
+    bad = batch.run()          # the single Lean driver invocation of this run
+    chk.log(f"Lean driver answered {len(batch.lines)} requests at {round(time.time() - chk.t0, 1)} s")
+    chk.info("table_rows_outside_reference", {k: v[:20] for k, v in drift.items()})
     unlisted = res["unlisted"]
     chk.info("helper_correspondence_disagreements", len(bad))
     chk.add("disagreements_checked", len(bad) + len(res["disagreements"]))
